@@ -46,9 +46,11 @@ class ExprModule:
         if k < 0.92:
             n = r.choice([1, 2, 2, 3, 4])
             return "$max(%s)" % ", ".join(a() for _ in range(n))
+        # (constant arguments are fine since fix 5ad5b76 gave the bound functions a constant_value)
+        arg = self.nonconst_int(d - 1) if r.random() < 0.6 else self.int_expr(d - 1)
         if k < 0.96:
-            return "$upper_bound(%s)" % self.nonconst_int(d - 1)
-        return "$lower_bound(%s)" % self.nonconst_int(d - 1)
+            return "$upper_bound(%s)" % arg
+        return "$lower_bound(%s)" % arg
 
     def nonconst_int(self, d):
         # an expression that mentions at least one field (so that ir_util.constant_value is None)
